@@ -24,7 +24,7 @@ def _mk_start(ss, kind, value):
     if kind == "account":
         return ss.AccountReplySequenceStart.from_value(value)
     if kind == "init":
-        seq1 = min(252, (value + 13) // 7)
+        seq1 = max(0, min(252, (value + 13) // 7))
         seq2 = value + 13 - 7 * seq1
         s = ss.InitSequenceStart.from_init_values(seq1, seq2)
     elif kind == "ping":
@@ -70,6 +70,10 @@ def _record(ss, ps, rng, n):
     kinds = ["simple", "account", "init", "ping"]
     def rs():
         k = rng.choice(kinds)
+        if k == "simple" and rng.random() < 0.3:
+            return k, rng.choice([-1, -9, 64000, 64008, 64009, 2 ** 31, rng.randrange(-100, 10 ** 6)])
+        if k == "init" and rng.random() < 0.1:
+            return k, rng.randrange(-13, 0)
         return k, (rng.randrange(0, 240) if k == "account" else rng.randrange(0, 1757))
     k, val = rs()
     seqr = ps.PacketSequencer(_mk_start(ss, k, val))
